@@ -756,7 +756,7 @@ func init() {
 			opt := ref.GenOpt{MaxDepth: 6, PFail: 0.15, PSugar: 0.6, PBoundary: 0.2, PGroup: 0.03, UserFuns: true}
 			fixedCases(c, lazyCases(), oracleC06)
 			fixedCases(c, wideThunkCases(), oracleC06)
-			stream(c, "mixed", c.Pick(6000, 120000), opt, user, 0, oracleC06)
+			stream(c, "mixed", c.Pick(6000, 400000), opt, user, 0, oracleC06)
 			fixedCases(c, permCases(), oracleC06)
 		},
 		Level: "exploration",
